@@ -357,7 +357,10 @@ func (j *judge) json() {
 			}
 		}
 		// (c) Go API of the VM library
-		if cs := jsonConstructs(v, t, lib, "go-typed"); lib == "vm" && !hasAny(cs, j.p.Avoid) {
+		// (the harness decodes the JSON text with encoding/json into float64 numbers before handing it to
+		// TypeAwareUnmarshalValue, so integers beyond 2^53 cannot survive this route by construction:
+		// that is a limit of the route, not of /repo, and such values are left out of it)
+		if cs := jsonConstructs(v, t, lib, "go-typed"); lib == "vm" && !hasAny(cs, j.p.Avoid) && !hasAny(cs, []string{cJSONBigInt}) {
 			detail := consDetail(cs)
 			j.evals++
 			back, err := goTypedRoundTrip(v, t)
